@@ -31,6 +31,12 @@ def run(ctx):
     n = V.rule_running_max_source(ctx, 'R17.8', V.TOPN, 'topn')
     n += V.rule_running_max_source(ctx, 'R17.8', V.BEST, 'bestfit')
     ctx.evaluated('R17.8', n, 2)
+    import misclib
+    ctx.rule('R17.10', 'Hungarian weights are 64-bit fixed point (no overflow of the solver sums at Mahalanobis scale)')
+    ctx.floor('R17.10', misclib.rule_weights_fit(ctx, 'R17.10'), 2)
+    ctx.rule('R17.9', 'the stream the engines consume is read by blocking receives only (an engine never sees a stream that '
+                      'is merely not delivered yet as empty)')
+    ctx.floor('R17.9', misclib.rule_blocking_receives_only(ctx, 'R17.9'), 1)
     from props import C12
     ctx.rule('R17.7', 'composition of the engines in VisualVoting: a track won by appearance is the track taken out of the '
                       'Hungarian stage (no track twice across the two stages)')
